@@ -94,6 +94,10 @@ def instances(tier, rng):
                         for ri, roots in enumerate(roots_all if (n <= 4 or tier == "thorough") else roots_all[:2]):
                             out.append(dict(name="%s/k%d/ae%d/pr%d/%s/r%d" % (nm, k, ae, prim, form, ri), form=form, n=n, edges=es,
                                             k=k, allow_empty=ae, primitive=prim, roots=roots, labels="vars"))
+        if es:
+            for how in ("rev", "alt"):
+                out.append(dict(name="%s/k2/%s" % (nm, how), form="list", n=n, edges=E.orient(es, how), k=2, allow_empty=False, primitive=False,
+                                roots=None, labels="vars"))
         if len(es) >= 2:
             for prim in (False, True):
                 out.append(dict(name="%s/k2/hist/pr%d" % (nm, prim), form="list", n=n, edges=es, k=2, allow_empty=False, primitive=prim,
